@@ -195,4 +195,53 @@ func runC17(w *World, r *Report) {
 				"the list stored under encodeAddressKey(trx."+side+") is updated", "no mem.Set whose key originates from encodeAddressKey(trx."+side+")")
 		}
 	}
+
+	// the awaiting index owns its key space: nothing else in the cache writes under an index key
+	r.rule("index-keys-private", "every write to the cache under a key built by encodeAddressKey / encodeTrxKey sits in the awaiting-index functions, and those functions write under no other keys (the balance entries share the cache: a shared key would let one clobber the other)", 6)
+	indexFns := map[string]bool{"SaveAwaitedTransaction": true, "RemoveAwaitedTransaction": true, "ReadTransactions": true}
+	nWrites := 0
+	for _, fn := range w.RepoFuncs("cache") {
+		owner := fn
+		for owner.Parent() != nil {
+			owner = owner.Parent()
+		}
+		instrsOf(fn, func(in ssa.Instruction) {
+			c, ok := in.(ssa.CallInstruction)
+			if !ok {
+				return
+			}
+			op := memCall(c)
+			if op != "Set" && op != "Delete" && op != "Append" {
+				return
+			}
+			_, args := callArgs(c)
+			encoded := false
+			for _, o := range origins(args[0]) {
+				if kc, ok := o.(*ssa.Call); ok && (strings.HasSuffix(calleeName(kc), ".encodeAddressKey") || strings.HasSuffix(calleeName(kc), ".encodeTrxKey")) {
+					encoded = true
+				}
+			}
+			nWrites++
+			isIndex := indexFns[owner.Name()]
+			// helpers extracted from the index functions are reached only from them
+			if !isIndex && owner.Object() != nil && !owner.Object().Exported() {
+				callers := staticCallers(w, owner)
+				isIndex = len(callers) > 0
+				for _, cs := range callers {
+					top := cs.Parent()
+					for top.Parent() != nil {
+						top = top.Parent()
+					}
+					if !indexFns[top.Name()] {
+						isIndex = false
+					}
+				}
+			}
+			r.check(encoded == isIndex, "index-keys-private", shortFn(fn)+"/"+op, lineOf(w, c),
+				"index keys are written only by the awaiting-index functions; other entries use other keys", fmt.Sprintf("key-built-by-index-encoder=%v in-index-function=%v", encoded, isIndex))
+		})
+	}
+	if nWrites == 0 {
+		r.bad("index-keys-private", "cache/writes", "-", "the cache is written", "no Set/Delete found")
+	}
 }
